@@ -374,14 +374,25 @@ Theorem C03_dnsquery_rt : forall id fl ls qt,
     encode_dns_query id fl name qt = Ok p /\
     len p = (16 + length name)%nat /\ cap p = 512%nat /\
     view p = dns_query_bytes id fl name qt /\ bytes_ok (view p) /\
-    dns_decode_lib p = Ok {| dv_id := id; dv_flags := fl; dv_qd := 1; dv_an := 0; dv_ns := 0; dv_ar := 0;
-                             dv_question := {| q_labels := ls; q_type := qt; q_class := 1;
-                                               q_end := (16 + length name)%nat |} |} /\
+    (* the library's own decoder: for names without a '.' inside a label (since repo commit c8663df by DNS
+       decodeName rejects such a label; the RFC reference decoder below reads every name back) *)
+    (no_dots ls ->
+     dns_decode_lib p = Ok {| dv_id := id; dv_flags := fl; dv_qd := 1; dv_an := 0; dv_ns := 0; dv_ar := 0;
+                              dv_question := {| q_labels := ls; q_type := qt; q_class := 1;
+                                                q_end := (16 + length name)%nat |} |}) /\
     ref_dns_query (view p) =
       Some {| rq_id := id; rq_flags := fl; rq_qd := 1; rq_an := 0; rq_ns := 0; rq_ar := 0;
               rq_labels := ls; rq_type := qt; rq_class := 1; rq_trailing := [] |}.
 Proof. exact dnsquery_rt. Qed.
 Print Assumptions C03_dnsquery_rt.
+
+(* documented boundary: a label with a '.' is encoded, read back by the reference decoder, refused by the library *)
+Example C03_dnsquery_dot_label :
+  let ls := [[97;46;98]; [99]] in
+  exists p, encode_dns_query 1 0 (wire_of_labels ls) 1 = Ok p /\
+            option_map rq_labels (ref_dns_query (view p)) = Some ls /\ dns_decode_lib p = Err EParseFrame.
+Proof. exact dnsquery_dot_label. Qed.
+Print Assumptions C03_dnsquery_dot_label.
 
 Example C03_dnsquery_rt_ex :
   let ls := [[119;119;119]; [101;120;97;109;112;108;101]; [99;111;109]] in
